@@ -38,6 +38,45 @@ def casing_stream(ctx):
                    model_disagreements=nd, python_oracle_disagreements=bad)
 
 
+def facts_stream(ctx):
+    """L1: variants / fields of the expanded message types of generic and non-generic programs; the placeholder variant of generic
+    message types must be invisible on the wire (serde(skip)), every other variant must come from a method of the kind"""
+    from .. import l1stream, l1facts
+    cts, ifs = l1stream.build(ctx, ctx.size(250, 5000), ctx.size(80, 2000), seed_salt=1)
+    ops, impl, model, meta = l1stream.run(ctx, "L1-facts", cts, ifs, "C01")
+    nd = c.diff_streams(ctx, "L1-facts", ops, impl, model)
+    bad = 0
+    generic = 0
+    for a, m in zip(impl, meta):
+        if m is None or m[3] != "clean":
+            continue
+        pid, item, src, status = m
+        obs = json.loads(a)
+        errs = []
+        for t in obs["msgs"]:
+            kind = [k for k, v in {"exec": "ExecMsg", "query": "QueryMsg", "sudo": "SudoMsg", "instantiate": "InstantiateMsg", "migrate": "MigrateMsg"}.items() if t["name"].endswith(v)][0]
+            ms = [x for x in item["methods"] if x.get("msg") and x["msg"]["kind"] == kind]
+            real = [v for v in t["variants"] if v["name"] != "_Phantom"]
+            for v in t["variants"]:
+                if v["name"] == "_Phantom":
+                    generic += 1
+                    if "serde(skip)" not in v["attrs"]:
+                        errs.append("%s has a placeholder variant without serde(skip): clients could send and receive `__phantom`" % t["name"])
+            if kind in ("exec", "query", "sudo"):
+                if [v["name"] for v in real] != [casing.upper_camel(x["name"]) for x in ms]:
+                    errs.append("%s variants %s, methods %s" % (t["name"], [v["name"] for v in real], [x["name"] for x in ms]))
+                for v, x in zip(real, ms):
+                    if [f["name"] for f in v["fields"]] != [y["name"] for y in x["args"]]:
+                        errs.append("%s::%s fields %s, arguments %s" % (t["name"], v["name"], [f["name"] for f in v["fields"]], [y["name"] for y in x["args"]]))
+            if 'serde(rename_all="snake_case")' not in t["attrs"]:
+                errs.append("%s lacks rename_all = snake_case" % t["name"])
+        if errs:
+            bad += 1
+            ctx.violation("message-type-shape", "; ".join(errs)[:400], {"source": src})
+    ctx.add_stream("L1-facts", len([m for m in meta if m]), len({m[2] for m in meta if m}), samples=[meta[2][2]],
+                   generic_message_types=generic, model_disagreements=nd, oracle_failures=bad)
+
+
 def run(ctx):
     ctx.cov["trusted_base"] = ["Lean 4.33 kernel", "axioms: propext, Classical.choice, Quot.sound only (audited)",
                                "L2 corpus harness + svmodel driver", "L3 rt harness (convert_case 0.8, serde_derive_internals 0.29.1)",
@@ -47,6 +86,7 @@ def run(ctx):
     translate.regenerate()
     c.prove(ctx, sorted({m for m, _ in THEOREMS}), THEOREMS)
     casing_stream(ctx)
+    facts_stream(ctx)
     progs, exes = l2.get_corpus(ctx)
     rng = random.Random(ctx.seed * 131 + 1)
     ops = {}
